@@ -141,6 +141,37 @@ pub fn cmd_build(arg: &str) -> String {
     )
 }
 
+/// buildcont TAG=hex;TAG=hex;... : like build, but the caller goes on after a refused add_field (the
+/// message must then be exactly what it was before the refused call)
+pub fn cmd_buildcont(arg: &str) -> String {
+    let mut m = RtMessage::with_capacity(0);
+    let mut errs: Vec<String> = Vec::new();
+    for (i, f) in arg.trim().split(';').filter(|s| !s.is_empty()).enumerate() {
+        let mut kv = f.splitn(2, '=');
+        let t = tag_by_name(kv.next().unwrap());
+        let v = unhex(kv.next().unwrap());
+        if let Err(e) = m.add_field(t, &v) {
+            errs.push(format!("{}:{}", i, render_err(&e)));
+        }
+    }
+    let head = format!(
+        "A={} N={} T={} V={}",
+        if errs.is_empty() { "-".to_string() } else { errs.join(",") },
+        m.num_fields(),
+        m.tags().len(),
+        m.values().len()
+    );
+    let size = m.encoded_size();
+    let m2 = m.clone();
+    let enc = match guarded(move || m2.encode()) {
+        None => return format!("{} Z={} E=PANIC", head, size),
+        Some(Err(e)) => return format!("{} Z={} E=ERR {}", head, size, render_err(&e)),
+        Some(Ok(v)) => v,
+    };
+    let (d, _) = render_decode(&enc);
+    format!("{} Z={} E=OK {}:{} R={}", head, size, enc.len(), fnv64(&enc), d)
+}
+
 /// padlen TAG=hex;... : calculate_padding_length on the built message
 pub fn cmd_padlen(arg: &str) -> String {
     let mut m = RtMessage::with_capacity(0);
